@@ -618,6 +618,46 @@ theorem gdefs_passes : ∀ (gdefs : List GateDef) (U0 : List GateDef) (st : Init
       simp [List.reverse_cons, List.append_assoc]
     · simpa [List.reverse_cons, List.append_assoc] using hf
 
+/-- gate definitions the standard accepts are `DefsOk` — given that no definition reuses a built-in name and
+that no divisor is a literal zero or a bare formal parameter -/
+theorem defsOk_of_flatten : ∀ (gdefs U0 : List GateDef) (env env' : Env) (tail : List Stmt) (fl : List FlatOp),
+    env.gates = U0 ++ qelib1.reverse → DefsOk U0 →
+    (∀ d ∈ gdefs, predefined d.name = false ∧ d.body.all gopDivOk = true) →
+    flattenFrom env (gdefs.map Stmt.gate ++ tail) = .ok (env', fl) → DefsOk (gdefs.reverse ++ U0) := by
+  intro gdefs
+  induction gdefs with
+  | nil => intro U0 _ _ _ _ _ h _ _; simpa using h
+  | cons d ds ih =>
+    intro U0 env env' tail fl hg hU hside h
+    obtain ⟨e1, o1, o2, h1, h2, rfl⟩ := flattenFrom_cons_inv (by simpa using h)
+    simp only [flattenStmt, bind, Except.bind] at h1
+    split at h1
+    · cases h1
+    · rename_i hnew
+      split at h1
+      · cases h1
+      · rename_i hnd
+        cases hgo : gopsOk env.gates d.params d.qargs d.body with
+        | error e => simp [hgo] at h1
+        | ok u =>
+          simp only [hgo, Except.ok.injEq, Prod.mk.injEq] at h1
+          obtain ⟨rfl, _⟩ := h1
+          have hdOk : DefsOk (d :: U0) := by
+            refine ⟨?_, (hside d (by simp)).1, ?_, ?_, by rw [← hg]; exact hgo, (hside d (by simp)).2, hU⟩
+            · simp only [Env.sig?, hg] at hnew
+              cases hf : (U0 ++ qelib1.reverse).find? (fun x => x.name == d.name) with
+              | none => rfl
+              | some x => simp [hf] at hnew
+            · have : decide d.params.Nodup && decide d.qargs.Nodup = true := by simpa using hnd
+              simp only [Bool.and_eq_true, decide_eq_true_eq] at this
+              exact this.1
+            · have : decide d.params.Nodup && decide d.qargs.Nodup = true := by simpa using hnd
+              simp only [Bool.and_eq_true, decide_eq_true_eq] at this
+              exact this.2
+          have := ih (d :: U0) { env with gates := d :: env.gates } env' tail o2 (by simp [hg]) hdOk
+            (fun x hx => hside x (by simp [hx])) h2
+          simpa [List.reverse_cons, List.append_assoc] using this
+
 /-! ## whole programs -/
 
 /-- **the class W₁**: header, `include "qelib1.inc"`, declarations, gate definitions, operations -/
